@@ -429,6 +429,7 @@ inline J plan_c18(uint64_t verif_seed, uint64_t index, int tier) {
             J rd = op(readers[i]);
             rd.set("file", file);
             rd.set("repeat", pick_repeat(rsch));
+            if (rsch.chance(0.15)) rd.set("no_error_code", true);  // the out-parameter is optional
             if (i == 0 && !oas && rsch.chance(0.3)) {
                 static const double units[] = {1e-6, 1e-9, 1e-3};
                 rd.set("unit", units[rsch.below(3)]);
@@ -445,6 +446,7 @@ inline J plan_c18(uint64_t verif_seed, uint64_t index, int tier) {
         for (int i = 0; i < nreaders; i++) rl.push(readers[i]);
         sw.set("readers", rl);
         sw.set("repeat_every", (int64_t)rf.range(3, 40));
+        sw.set("no_error_code_every", (int64_t)rf.range(2, 9));
         ops.push(sw);
     } else {
         // damage at rest: cuts at interesting places and at random offsets
@@ -575,6 +577,7 @@ inline J plan_c01(uint64_t verif_seed, uint64_t index, int tier) {
     cfg.big_polygons = ro.chance(tier ? 0.08 : 0.03);
     cfg.nonsimple_paths = ro.chance(0.4);
     cfg.robust_paths = ro.chance(0.4);
+    cfg.multi_element_simple_paths = true;
     cfg.long_strings = ro.chance(0.2);
     cfg.close_vertices = ro.chance(0.1);
     cfg.simple_polys_only = max_points > 4;  // fracturing is only defined for simple polygons
@@ -642,6 +645,7 @@ inline void c03_extras(Rng& r, model::MLib& m) {
         model::MCell& c = m.cells[ci];
         for (auto& ref : c.refs) {
             if (ref.rep.type != model::REP_REGULAR) continue;
+            if (ref.rep.cols * ref.rep.rows > 2000) continue;  // generated along the rotated axes already (gen::reference)
             if ((ref.rep.v1.x == 0 || ref.rep.v1.y == 0) && std::max(llabs(ref.rep.v1.x), llabs(ref.rep.v1.y)) >= 5000000000LL) {
                 // an array wider than 2^31 grid steps (generator): keep the column vector, pick the rotation it
                 // follows and a short row vector along the rotated y axis
@@ -761,6 +765,7 @@ inline J plan_c03(uint64_t verif_seed, uint64_t index, int tier) {
         cfg.big_polygons = ro.chance(0.04);
         cfg.nonsimple_paths = ro.chance(0.3);
         cfg.robust_paths = ro.chance(0.3);
+        cfg.multi_element_simple_paths = true;
         cfg.long_strings = ro.chance(0.2);
         cfg.simple_polys_only = max_points > 4;
         model::MLib m = gen::library(rm, cfg);
@@ -1064,6 +1069,10 @@ inline J plan_c17(uint64_t verif_seed, uint64_t index, int tier) {
                 J o = op("stamp");
                 o.set("file", F);
                 o.set("ts", random_ts(rsch));
+                if (rsch.chance(0.2)) {
+                    o.set("ts_from", rsch.chance(0.6) ? "library" : "structure");
+                    o.set("ts_index", (int64_t)rsch.below(8));
+                }
                 if (rf.chance(0.25)) {
                     J f = J::obj();
                     f.set("crash_at", (int64_t)rf.range(1, 20));
@@ -1166,6 +1175,7 @@ inline J plan_c02(uint64_t verif_seed, uint64_t index, int tier) {
     // non-simple path after freeing them - DESIGN.md section 6.)
     cfg.nonsimple_paths = false;
     cfg.robust_paths = ro.chance(0.4);
+    cfg.multi_element_simple_paths = true;
     cfg.long_strings = ro.chance(0.2);
     cfg.simple_polys_only = true;
     cfg.dangling = ro.chance(0.35);
@@ -1292,6 +1302,7 @@ inline J plan_c04(uint64_t verif_seed, uint64_t index, int tier) {
         cfg.max_elems = (int)ro.range(1, tier ? 14 : 9);
         cfg.max_vertices = (int)ro.range(4, 40);
         cfg.robust_paths = ro.chance(0.3);
+        cfg.multi_element_simple_paths = true;
         cfg.long_strings = ro.chance(0.2);
         cfg.simple_polys_only = true;
         cfg.dangling = ro.chance(0.3);
